@@ -154,6 +154,27 @@ void vh_fill_lowrank(mzd_t *M, int r) {
 }
 
 /* random invertible: rows of a unit lower triangular L times unit upper triangular U, rows shuffled */
+/* sparse invertible: a row permutation of (identity + a few entries above the diagonal, concentrated in a few late columns):
+ * most rows are zero across whole table ranges of an elimination block */
+void vh_fill_sparse_invertible(mzd_t *M) {
+  int n = M->nrows;
+  clear_all(M);
+  int *perm = (int *)vh_xmalloc(sizeof(int) * (n + 1));
+  for (int i = 0; i < n; i++) perm[i] = i;
+  if (vh_randint(0, 1))
+    for (int i = n - 1; i > 0; i--) { int j = vh_randint(0, i); int t = perm[i]; perm[i] = perm[j]; perm[j] = t; }
+  int ncolsx = vh_randint(1, 3);
+  int cx[3];
+  for (int t = 0; t < ncolsx; t++) cx[t] = n - 1 - vh_randint(0, n > 12 ? 11 : n - 1);
+  for (int i = 0; i < n; i++) {
+    setbit(M, perm[i], i, 1);
+    for (int t = 0; t < ncolsx; t++)
+      if (cx[t] > i && vh_randint(0, 2) == 0) setbit(M, perm[i], cx[t], 1);
+    if (vh_randint(0, 15) == 0 && i + 1 < n) setbit(M, perm[i], vh_randint(i + 1, n - 1), 1);
+  }
+  vh_xfree(perm);
+}
+
 void vh_fill_invertible(mzd_t *M) {
   int n = M->nrows, w = M->width;
   clear_all(M);
